@@ -27,7 +27,7 @@ def c_lib(lib):
     for g in lib['geoms']:
         prims = []
         for p in g['prims']:
-            prims.append(ctuple(cnat({'triangles': 0, 'polylist': 1, 'polygons': 1, 'lines': 2}[p['kind']]),
+            prims.append(ctuple(cnat({'triangles': 0, 'polylist': 1, 'polygons': 2, 'lines': 3}[p['kind']]),
                                 cN(0 if p['symbol'] is None else S[p['symbol']]),
                                 clist([c_vec(v) for v in g['verts']]),
                                 'None' if not p['normals'] else '(Some %s)' % clist([c_vec(v) for v in g['normals']])))
